@@ -8,7 +8,7 @@ import re
 from ..core import Checker, Rule, attr_calls, callee_is, calls_in, kwarg, resolved_calls, short
 from ..interp import Pins, find_nodes, unparse
 from ..model import AnalysisError
-from .util import effect_table, enclosing_loop, enclosing_stmt, enum_members, every_iteration_reaches, fmt, inline_displays, is_const, parent, returns_of, single_def
+from .util import effect_table, enclosing_loop, enclosing_stmt, enum_members, every_iteration_reaches, fmt, inline_displays, is_const, parent, returns_of, same, single_def
 
 P = ("C12", "C01", "C06")
 PG = ("C12", "C02", "C01")
@@ -275,7 +275,8 @@ def _g_rows(ck: Checker, name: str, which: str) -> None:
         ck.need(lp is not None and isinstance(lp.target, ast.Tuple), "loop over (tuple, objectives)")
         objs = unparse(lp.target.elts[1])  # type: ignore[union-attr]
         comp = unparse(ext[0].args[0]).replace(" ", "")
-        ck.add("minimize: only the statement itself is exempt from the uniqueness test", comp in (f"[xforxin{objs}ifx!={stm}]", f"[xforxin{objs}if{stm}!=x]"), func, ext[0], f"collected: `{comp}`",
+        comp_full = unparse(ext[0].args[0])
+        ck.add("minimize: only the statement itself is exempt from the uniqueness test", same(comp_full, f"[x for x in {objs} if x != {stm}]"), func, ext[0], f"collected: `{comp}`",
                "another objective with the syntactically identical tuple sits under the same key: skipping the whole entry lets a duplicate tuple be counted twice after the rewrite")
         ck.add("minimize: every objective of the program is compared", unparse(lp.iter) == "minimizes.items()", func, lp, f"loop over `{unparse(lp.iter)}`", "")
         gate = parent(func, enclosing_stmt(func, ext[0]))
@@ -294,7 +295,8 @@ def _g_rows(ck: Checker, name: str, which: str) -> None:
         call = resolved_calls(ck.prg, ck.func(f"{CLS}._replace_results_in_sum_agg"), f"ngo.{CLS}._replace_results_in_sum_agg_elem")
         ck.need(len(call) == 1, "_replace_results_in_sum_agg calls the element replacement")
         sib = unparse(call[0].args[1]).replace(" ", "")
-        ck.add("sum element: siblings = all other elements", sib == "[xforxinatom.elementsifx!=elem]", ck.func(f"{CLS}._replace_results_in_sum_agg"), call[0], f"rest_elems=`{sib}`", "")
+        sib_full = unparse(call[0].args[1])
+        ck.add("sum element: siblings = all other elements", same(sib_full, "[x for x in atom.elements if x != elem]"), ck.func(f"{CLS}._replace_results_in_sum_agg"), call[0], f"rest_elems=`{sib}`", "")
     # the replaced literal is the positive min/max literal of that predicate
     o = [n for n in find_nodes((ck.func(f"{CLS}._split_element") if which != "minimize" else func).node, lambda n: isinstance(n, ast.Assign)) if unparse(n.targets[0]) in ("oldmax",) and not is_const(n.value, None)]  # type: ignore[attr-defined]
     ck.need(len(o) == 1, "old min/max literal selected at one site")
